@@ -342,6 +342,29 @@ def check(ctx):
     from .common_domains import name_alias_domains_rule
     name_alias_domains_rule(ctx, "C13.R7", ("apischema.discriminators",))
 
+    # ---------------- R12: tagged unions
+    ctx.rule("C13.R12", "a TaggedUnion holds exactly one tag: the constructor refuses any other number of tags and unknown tags, sets every other tag to Undefined (omitted by serialization, which therefore emits the single tag), each tag is declared Union[T, UndefinedType] with default Undefined, the class is registered with minProperties = maxProperties = 1, and get_tagged returns the tag that is not Undefined", floor=6)
+    tui = model.func("apischema.tagged_unions.TaggedUnion.__init__")
+    tus = model.func("apischema.tagged_unions.TaggedUnion.__init_subclass__")
+    gt = model.func("apischema.tagged_unions.get_tagged")
+    kw = tui.node.args.kwarg.arg if tui.node.args.kwarg else "kwargs"
+    arity = [n for n in walk_no_nested(tui.node) if isinstance(n, ast.If) and norm(n.test) == f"len({kw}) != 1" and any(isinstance(x, ast.Raise) for x in n.body)]
+    ctx.check(len(arity) == 1, "C13.R12", f"{tui.qualname}:exactly-one", None, "the constructor no longer refuses zero or several tags (`if len(kwargs) != 1: raise`): a TaggedUnion with two tags can be built, serialized with two keys, and refused when read back", tui, tui.node, detail=f"if len({kw}) != 1: raise")
+    unknown = [n for n in ast.walk(tui.node) if isinstance(n, ast.If) and norm(n.test) == "tag not in tags" and any(isinstance(x, ast.Raise) for x in n.body)]
+    ctx.check(len(unknown) == 1, "C13.R12", f"{tui.qualname}:known-tag", None, "an unknown tag is no longer refused by the constructor", tui, tui.node, detail="if tag not in tags: raise")
+    resets = [c for c in ast.walk(tui.node) if isinstance(c, ast.Call) and dotted(c.func) == "setattr" and len(c.args) == 3 and norm(c.args[0]) == "self"]
+    vals = sorted(norm(c.args[2]) for c in resets)
+    ctx.check(vals == ["Undefined", "value"], "C13.R12", f"{tui.qualname}:others-undefined", None, f"the constructor sets {vals}: every tag must first be Undefined (absent from the serialized data), then the given one receives its value", tui, tui.node, detail="setattr(self, tag, Undefined) for all; setattr(self, tag, value) for the given one")
+    t_sub = norm(tus.node)
+    fld_default = any(isinstance(c, ast.Call) and dotted(c.func) == "field" and any(k.arg == "default" and norm(k.value) == "Undefined" for k in c.keywords) for c in ast.walk(tus.node))
+    ann_undef = any(isinstance(a, ast.Assign) and "__annotations__" in norm(a.targets[0]) and isinstance(a.value, ast.Subscript) and norm(a.value.value) == "Union" and "UndefinedType" in norm(a.value.slice) for a in ast.walk(tus.node))
+    ctx.check(fld_default and ann_undef, "C13.R12", f"{tus.qualname}:tag-fields", None, "a tag is no longer declared as a field Union[T, UndefinedType] with default Undefined: absent tags would be required by deserialization / emitted by serialization", tus, tus.node, detail="field(default=Undefined, ...) : Union[T, UndefinedType]")
+    reg = [c for c in ast.walk(tus.node) if isinstance(c, ast.Call) and dotted(c.func) == "schema"]
+    kws12 = {k.arg: norm(k.value) for c in reg for k in c.keywords}
+    ctx.check(kws12.get("min_props") == "1" and kws12.get("max_props") == "1", "C13.R12", f"{tus.qualname}:one-property", None, f"the class is registered with schema({kws12}) instead of min_props=1, max_props=1: data with no tag or several tags is no longer refused (nor excluded by the JSON schema)", tus, reg[0] if reg else tus.node, detail="schema(min_props=1, max_props=1)")
+    ctx.check(any(k.arg == "init" and norm(k.value) == "False" for c in ast.walk(tus.node) if isinstance(c, ast.Call) and dotted(c.func) == "dataclass" for k in c.keywords), "C13.R12", f"{tus.qualname}:keeps-constructor", None, "the dataclass decorator replaces the checking constructor (init=False dropped)", tus, tus.node, detail="dataclass(init=False, ...)")
+    ctx.check("is not Undefined" in norm(gt.node) and "next(iter(defined.items()))" in norm(gt.node), "C13.R12", f"{gt.qualname}:defined-tag", None, "get_tagged no longer returns the tag whose value is not Undefined", gt, gt.node, detail="the (tag, value) whose value is not Undefined")
+
     # ---------------- R11: the alternatives reach every visitor in declaration order
     ctx.rule("C13.R11", "the base dispatcher hands the alternatives of a union to union() exactly as get_args returns them, and the conversions visitor visits them in that order: 'the first accepting alternative' is the first declared one in every view", floor=3)
     vv = model.func("apischema.visitor.Visitor.visit")
@@ -409,6 +432,11 @@ def check(ctx):
     ctx.check(preorder or derived_first, "C13.R8", f"{rs_f.qualname}:order", None, "rec_subclasses no longer yields a class before its own subclasses and the serializer does not reorder: the order of the alternatives is unknown", rs_f, rs_f.node, detail="parent, then its subclasses", nontrivial=False)
 
 def mutants(mb):
+    TU = "apischema/tagged_unions.py"
+    mb.add_text("tagged-union-any-arity", TU, "        if len(kwargs) != 1:\n            raise ValueError(\"TaggedUnion constructor expects only one field\")\n", "", "C13.R12", "exactly-one")
+    mb.add_text("tagged-union-others-not-reset", TU, "        for tag in tags:\n            setattr(self, tag, Undefined)\n", "", "C13.R12", "others-undefined")
+    mb.add_text("tagged-union-no-max", TU, "schema(min_props=1, max_props=1)", "schema(min_props=1)", "C13.R12", "one-property")
+    mb.add_text("tagged-union-get-tagged-any", TU, "        if getattr(tagged_union, tag) is not Undefined\n", "", "C13.R12", "defined-tag")
     mb.add_text("none-alternative-moved-last", "apischema/visitor.py", "            if is_union(origin):\n                return self.union", "            if is_union(origin):\n                if type(None) in args:\n                    args = (*(arg for arg in args if arg is not type(None)), type(None))\n                return self.union", "C13.R11", "args")
     mb.add_text("str-captured-by-sequence-alternative", "apischema/serialization/__init__.py", "                    alt_cls = AbstractCollectionAlternative\n", "                    alt_cls = UnionAlternative\n", "C13.R10", "refuses-str")
     mb.add_text("abstract-collection-alternative-accepts-str", "apischema/serialization/methods.py", "        if isinstance(obj, (str, bytes)):\n            # caught by UnionMethod, which goes on with the next alternatives\n            raise TypeCheckError(f\"Expected {self.cls}, found {obj.__class__}\", [])\n", "", "C13.R10", "refuses-str")
